@@ -407,6 +407,16 @@ fn edit_docs(g: &Grammar) -> Vec<(String, String)> {
         }
         let n = gen.min_node("USER_RIGHTS", 5, 1);
         doc.root.at_mut(&path).children.push(n);
+        // a module that holds nothing but four elements of the kind under test (no other kind, no comment)
+        {
+            let (mut d1, p1) = gen.carrier_v("MODULE", 5, 1);
+            d1.root.at_mut(&p1).children.clear();
+            for _ in 0..4 {
+                let n = gen.min_node(kind, 5, 1);
+                d1.root.at_mut(&p1).children.push(n);
+            }
+            out.push((format!("edit-doc({kind},single-kind)"), render(&d1.tokens(), &HashMap::new())));
+        }
         let toks = doc.tokens();
         // layout A: default; layout B: blank line before every module-level element; layout C: parameters on separate lines
         out.push((format!("edit-doc({kind},compact)"), render(&toks, &HashMap::new())));
